@@ -7,7 +7,7 @@
    analysis, knot by induction on the fuel; `gshape` implies the check by induction on the tree. *)
 From TsRs Require Import Base.Str Base.Outcome Gen.Tables Model.Case Model.TsAst Model.Rust Model.Docs Model.Gen
   Spec.RtyInd Spec.TsGrammar Spec.TsSyn Spec.TsFree Spec.TsSem Spec.GenClean
-  Proofs.Gen_base_proofs Proofs.Sem_base_proofs Proofs.Docs_proofs Proofs.Grammar_proofs.
+  Model.Path Model.Merge Model.GenExport Proofs.Gen_base_proofs Proofs.Sem_base_proofs Proofs.Docs_proofs Proofs.Grammar_proofs Proofs.Grammar_export_proofs Proofs.Path_clean_proofs.
 From Coq Require Import List NArith Bool Lia.
 Import ListNotations.
 Open Scope N_scope.
@@ -227,8 +227,12 @@ Lemma def_clean_parts d : def_cleanb d = true ->
   no_text (c_type (attrs_of d)) = true /\ decl_nameb (ts_ident d) = true /\ cleanb (ts_ident d) = true /\
   forallb param_cleanb (c_params (attrs_of d)) = true.
 Proof.
-  unfold GenClean.def_cleanb. intros H. apply andb_true_iff in H as [H _]. apply andb_true_iff in H as [H H4].
+  unfold GenClean.def_cleanb. intros H. apply andb_true_iff in H as [H _]. apply andb_true_iff in H as [H H4]. apply andb_true_iff in H as [H _].
   apply andb_true_iff in H as [H H3]. apply andb_true_iff in H as [H1 H2]. auto.
+Qed.
+Lemma def_clean_export d : def_cleanb d = true -> match c_export_to (attrs_of d) with Some s => cleanb s | None => true end = true.
+Proof.
+  unfold GenClean.def_cleanb. intros H. apply andb_true_iff in H as [H _]. apply andb_true_iff in H as [H _]. apply andb_true_iff in H as [_ H]. exact H.
 Qed.
 
 Lemma prim_shape w : ascii_word w = true -> reserved w = false -> gshape (TPrim w) = true.
@@ -508,3 +512,93 @@ Proof.
   - inversion Hy. cbn [fst snd]. rewrite H1. reflexivity.
 Qed.
 End Layers.
+
+(* ---- the whole export: import block, doc block, declaration ---------------------------------------- *)
+Section Export.
+Variable is_upper is_alnum is_numeric : char -> bool.
+Hypothesis Hcls : classes_ok is_alnum is_numeric = true.
+Variable R : env.
+Hypothesis HR : clean_envb is_upper is_alnum is_numeric R = true.
+Variable esm : bool.
+Variable cwd : list str.
+Hypothesis Hcwd : forallb cleanb cwd = true.
+
+Notation decl_nameb := (decl_nameb is_alnum is_numeric).
+Notation group_okb := (group_okb is_alnum is_numeric).
+Notation def_cleanb := (def_cleanb is_upper is_alnum is_numeric).
+
+Definition dep_ok (e : dep) : bool := decl_nameb (snd (fst e)) && cleanb (snd e).
+
+Lemma output_path_clean d : def_cleanb d = true -> cleanb (output_path_of d) = true.
+Proof.
+  intros Hc. destruct (def_clean_parts _ _ _ d Hc) as (_ & _ & Hn & _). pose proof (def_clean_export _ _ _ d Hc) as He.
+  unfold output_path_of. destruct (c_export_to (attrs_of d)) as [s|].
+  - destruct (ends_with _ s); [|exact He]. rewrite !cleanb_app, He, Hn. reflexivity.
+  - rewrite cleanb_app, Hn. reflexivity.
+Qed.
+
+Lemma out_path_clean t p : out_path R t = Some p -> cleanb p = true /\ decl_nameb (ident_of R t) = true.
+Proof.
+  unfold out_path, ident_of. destruct t as [| | | | | | | | |id args| |]; try discriminate. destruct (lookup R id) as [d|] eqn:Hl; [|discriminate].
+  intros H. inversion H. pose proof (lookup_clean _ _ _ _ _ _ HR Hl) as Hc. split; [apply output_path_clean; exact Hc|].
+  destruct (def_clean_parts _ _ _ d Hc) as (_ & Hn & _). exact Hn.
+Qed.
+
+Lemma dependencies_ok fuel t deps : dependencies_of R fuel t = Ok deps -> forallb dep_ok deps = true.
+Proof.
+  unfold dependencies_of. intros H. apply omap_ok in H as (l & _ & ->).
+  induction l as [|u l IH]; [reflexivity|]. cbn [flat_map]. rewrite forallb_app. apply andb_true_iff. split; [|exact IH].
+  destruct (out_path R u) as [p|] eqn:Hp; [|reflexivity]. destruct (out_path_clean u p Hp) as [H1 H2].
+  cbn [forallb]. unfold dep_ok. cbn [fst snd]. rewrite H1, H2. reflexivity.
+Qed.
+
+Lemma dep_insert_ok e m : dep_ok e = true -> forallb dep_ok m = true -> forallb dep_ok (dep_insert e m) = true.
+Proof.
+  intros He. induction m as [|x r IH]; cbn [dep_insert forallb]; intros H; [rewrite He; reflexivity|].
+  apply andb_true_iff in H as [Hx Hr]. destruct (str_compare _ _); cbn [forallb]; rewrite ?He, ?Hx, ?Hr, ?IH; auto.
+Qed.
+
+Lemma fold_step_ok path dir : cleanb path = true -> cleanb dir = true -> forall l acc m, forallb dep_ok l = true ->
+  (forall m0, acc = Ok m0 -> forallb group_okb m0 = true) ->
+  fold_left (fun (acc : outcome imports_map) (e : dep) =>
+               bind acc (fun m =>
+               bind (import_path esm cwd path (path_join dir (snd e))) (fun rel =>
+               if is_same_file path rel then Ok m else Ok (map_insert rel [snd (fst e)] m)))) l acc = Ok m ->
+  forallb group_okb m = true.
+Proof.
+  intros Hpath Hdir. induction l as [|e l IH]; cbn [fold_left forallb]; intros acc m Hl Hacc H; [exact (Hacc m H)|].
+  apply andb_true_iff in Hl as [He Hl]. refine (IH _ m Hl _ H). intros m0 E.
+  apply bind_ok in E as (m1 & Hm1 & E). apply bind_ok in E as (rel & Hrel & E).
+  unfold dep_ok in He. apply andb_true_iff in He as [Hn Hp].
+  pose proof (import_path_clean _ _ _ _ _ Hcwd Hpath (path_join_clean _ _ Hdir Hp) Hrel) as Hc.
+  destruct (is_same_file path rel); inversion E; subst m0; [exact (Hacc m1 Hm1)|].
+  apply map_insert_ok; [|exact (Hacc m1 Hm1)]. unfold Grammar_proofs.group_okb. cbn [fst snd forallb is_nil negb]. rewrite Hc, Hn. reflexivity.
+Qed.
+
+Lemma import_groups_ok t dir deps m : cleanb dir = true -> forallb dep_ok deps = true ->
+  import_groups R esm cwd t dir deps = Ok m -> forallb group_okb m = true.
+Proof.
+  intros Hdir Hdeps H. unfold import_groups in H. destruct (out_path R t) as [op|] eqn:Hop; [|discriminate].
+  destruct (out_path_clean t op Hop) as [Hopc _]. pose proof (path_join_clean _ _ Hdir Hopc) as Hpath.
+  assert (Hdd : forall l acc, forallb dep_ok l = true -> forallb dep_ok acc = true -> forallb dep_ok (fold_left (fun m e => dep_insert e m) l acc) = true).
+  { induction l as [|e l IH]; cbn [fold_left forallb]; intros acc Hl Ha; [exact Ha|]. apply andb_true_iff in Hl as [H1 H2].
+    apply IH; [exact H2 | apply dep_insert_ok; assumption]. }
+  refine (fold_step_ok _ dir Hpath Hdir _ (Ok []) m (Hdd _ [] (forallb_filter _ _ _ Hdeps) eq_refl) _ H).
+  intros m0 E. inversion E. reflexivity.
+Qed.
+
+Theorem export_checked fuel t dir s : cleanb dir = true ->
+  export_string is_upper is_alnum is_numeric R esm cwd fuel t dir = Ok s ->
+  export_okb is_upper is_alnum is_numeric R esm cwd fuel t dir = true.
+Proof.
+  intros Hdir Hs. destruct (export_string_parts _ _ _ _ _ _ _ _ _ _ Hs) as (m & docs & dc & Hp & _).
+  unfold export_okb. rewrite Hp. unfold export_parts in Hp.
+  destruct (out_path R (without_generics t)); [|discriminate].
+  apply bind_ok in Hp as (deps & Hdeps & Hp). apply bind_ok in Hp as (m' & Hm & Hp).
+  destruct t as [| | | | | | | | |id args| |]; try discriminate. destruct (lookup R id) as [d|] eqn:Hl; [|discriminate].
+  apply bind_ok in Hp as (dc' & Hdc & Hp). inversion Hp; subst m' docs dc'. clear Hp.
+  destruct (decl_of_checked _ _ _ Hcls R HR fuel id d dc Hl Hdc) as [H1 _]. rewrite H1, docs_always_ok.
+  change (imports_okb is_alnum is_numeric m) with (forallb group_okb m).
+  rewrite (import_groups_ok _ dir deps m Hdir (dependencies_ok _ _ _ Hdeps) Hm). reflexivity.
+Qed.
+End Export.
